@@ -188,21 +188,18 @@ func printSummary(s *Summary) {
 
 // parallelFor runs fn(worker, i) for i in [0,n) on all CPUs.
 func parallelFor(n, workers int, fn func(w, i int)) {
+	// static striping (worker w takes i = w, w+workers, ...), each worker in increasing order: with the per-worker
+	// random sources the callers keep, a run is then a function of the seed alone and can be repeated exactly
 	var wg sync.WaitGroup
-	ch := make(chan int, 1024)
 	for w := 0; w < workers; w++ {
 		wg.Add(1)
 		go func(w int) {
 			defer wg.Done()
-			for i := range ch {
+			for i := w; i < n; i += workers {
 				fn(w, i)
 			}
 		}(w)
 	}
-	for i := 0; i < n; i++ {
-		ch <- i
-	}
-	close(ch)
 	wg.Wait()
 }
 
